@@ -430,8 +430,16 @@ def parse_rvalue(s):
         elems = [p for p in split_top(inner) if p != '']
         return ('tuple', [parse_operand(e) for e in elems])
     if s.startswith('{closure@') or s.startswith('{coroutine@'):
-        # {closure@src/x.rs:1:2: 3:4}  or with captured operands? (printed as `{closure@...}`)
-        return ('closure', s)
+        # {closure@src/x.rs:1:2: 3:4}   or   {closure@...} { captured: operand, .. }
+        k = s.index('}')
+        ty = s[:k + 1]
+        rest = s[k + 1:].strip()
+        caps = []
+        if rest.startswith('{') and rest.endswith('}'):
+            for f in split_top(rest[1:-1].strip()):
+                if f:
+                    caps.append(parse_operand(f.split(': ', 1)[1]))
+        return ('closure', ty, caps)
     # struct literal  Name { f: op, .. }
     m = re.match(r'^(.*?) \{ (.*) \}$', s)
     if m and not m.group(1).startswith(('copy', 'move', 'const')):
